@@ -119,6 +119,132 @@ def sliceUpdArr (a : List Val) (skip take : Nat) (u : Val → Out Val) : Except 
   | .ok (some (.arr y)) => .ok (.arr (a.take skip ++ y ++ a.drop (skip + take)))
   | .ok (some y) => .error (.err (.typ y tyArr))
 
+
+/-! ### round 2: `index_upd` on objects, `slice_upd` / `index_upd` on text and byte strings -/
+
+/-- `index_upd($i; u; fail)` on objects (docs/advanced.dj):
+`if has($i) then with_entries(if .key == $i then {key, value: first(.value | u)} end)
+ else . + {($i): first(null | u)} end` — an entry without output disappears, the other entries keep
+their order. -/
+def indexUpdObj (o : List (Val × Val)) (i : Val) (u : Val → Out Val) : Except Exn (List (Val × Val)) :=
+  match Obj.get o i with
+  | some x =>
+    match firstOf (u x) with
+    | .error e => .error e
+    | .ok (some y) => .ok (o.map fun kx => if Obj.sameKey i kx.1 then (kx.1, y) else kx)
+    | .ok none => .ok (o.eraseP fun kx => Obj.sameKey i kx.1)
+  | none =>
+    match firstOf (u .null) with
+    | .error e => .error e
+    | .ok (some y) => .ok (o ++ [(i, y)])
+    | .ok none => .ok o
+
+/-- the result of the code and the result of the manual's expression are the same object up to
+the order of the entries (jaq's `==` on objects; `swap_remove` moves the last entry) -/
+def SameEntries : Except Exn Val → Except Exn (List (Val × Val)) → Prop
+  | .ok (.obj r), .ok r' => r.Perm r'
+  | .error e, .error e' => e = e'
+  | _, _ => False
+
+/-- the three kinds of sequences that can be sliced, as lists of *items* (array elements, bytes,
+characters as their UTF-8 encodings) -/
+inductive Seq where
+  | arr (a : List Val)
+  | bytes (b : List UInt8)
+  | chars (cs : List (List UInt8))
+
+def seqOf : Val → Option Seq
+  | .arr a => some (.arr a)
+  | .bstr b => some (.bytes b)
+  | .tstr b => some (.chars (Utf8.chars b))
+  | _ => none
+
+def Seq.length : Seq → Nat
+  | .arr a => a.length | .bytes b => b.length | .chars cs => cs.length
+def Seq.toVal : Seq → Val
+  | .arr a => .arr a | .bytes b => .bstr b | .chars cs => .tstr cs.flatten
+def Seq.sub (s : Seq) (skip take : Nat) : Seq :=
+  match s with
+  | .arr a => .arr ((a.drop skip).take take)
+  | .bytes b => .bytes ((b.drop skip).take take)
+  | .chars cs => .chars ((cs.drop skip).take take)
+/-- `$l + y + $r` with `y` the replacement: an array for arrays, a string of the same kind for
+strings (anything else is a type error); `none` = no output, the slice is removed -/
+def Seq.splice (s : Seq) (skip take : Nat) (y : Option Val) : Except Exn Val :=
+  match s, y with
+  | .arr a, none => .ok (.arr (a.take skip ++ a.drop (skip + take)))
+  | .arr a, some (.arr y) => .ok (.arr (a.take skip ++ y ++ a.drop (skip + take)))
+  | .arr _, some y => .error (.err (.typ y tyArr))
+  | .bytes b, none => .ok (.bstr (b.take skip ++ b.drop (skip + take)))
+  | .bytes b, some (.bstr y) => .ok (.bstr (b.take skip ++ y ++ b.drop (skip + take)))
+  | .bytes _, some y => .error (.err (.typ y tyStr))
+  | .chars cs, none => .ok (.tstr ((cs.take skip).flatten ++ (cs.drop (skip + take)).flatten))
+  | .chars cs, some (.tstr y) => .ok (.tstr ((cs.take skip).flatten ++ y ++ (cs.drop (skip + take)).flatten))
+  | .chars _, some y => .error (.err (.typ y tyStr))
+
+/-- `slice_upd($i; $j; u; fail)` on any sequence, positions resolved to `skip`/`take`:
+`[.[:$i], .[$i:$j], .[$j:]] | .[1] |= u | add` — the middle part is what `.[$i:$j]` reads
+(`slice_reads_what_it_updates`), it is replaced by the first output of `u` or removed. -/
+def sliceUpdSeq (s : Seq) (skip take : Nat) (u : Val → Out Val) : Except Exn Val :=
+  match firstOf (u (s.sub skip take).toVal) with
+  | .error e => .error e
+  | .ok y => s.splice skip take y
+
+/-! ### round 2: positions — which places of a value an update may touch -/
+
+/-- the place of an array that the index `k` denotes (`abs_index` of `as_pos_usize`):
+`-1` and `len-1` denote the same place; out of bounds and non-integers denote none -/
+def slotArr (a : List Val) (k : Val) : Option Nat :=
+  match k with
+  | .num n => (n.asPosUsize).bind (absIndex · a.length)
+  | _ => none
+
+/-- `.[i]` and `.[j]` are different places of the container `c`, `.[i]` being one that an update
+can reach.  Arrays: `i` denotes a place and the integer `j` does not denote the same one.
+Objects: the keys differ and no entry answers to both (on an `IndexMap`, whose keys are pairwise
+different, the second part follows from the first). -/
+def Sep (c i j : Val) : Prop :=
+  match c with
+  | .arr a => ∃ x n, slotArr a i = some x ∧ j = .num n ∧ isIntNum n = true ∧ slotArr a j ≠ some x
+  | .obj o => Obj.sameKey j i = false ∧ ∀ e ∈ o, Obj.sameKey i e.1 = true → Obj.sameKey j e.1 = false
+  | _ => False
+
+/-- `.[i]` and `.[j]` are the same place of `c`: the same key, or two indices of the same array slot -/
+def SameSlot (c i j : Val) : Prop :=
+  match c with
+  | .arr a => ∃ x, slotArr a i = some x ∧ slotArr a j = some x
+  | .obj _ => i = j
+  | _ => False
+
+/-- `j` can name a child of `c` (on arrays only numbers do: arrays and `{start,end}` objects as
+indices search / slice) -/
+def ChildKey (c j : Val) : Prop :=
+  match c with
+  | .arr _ => ∃ n, j = .num n
+  | .obj _ => True
+  | _ => False
+
+/-- The position `π` (a `getpath` argument) *avoids* the positions that the evaluated path `cp`
+denotes in `c`: it is neither one of them, nor below one, nor above one.  Walking down both:
+at an index part the two either separate (`Sep`) or name the same place and go on below it;
+at `.[]` every child is a denoted position, so go on below the child `π` names;
+`[]` = a denoted position is reached (`π` is it or below it); `π = []` = `π` is above.
+Slices are not followed (an update of `.[i:j]` may move everything behind it). -/
+def Avoids : Val → CPath → VPath → Prop
+  | _, [], _ => False
+  | _, _ :: _, [] => False
+  | c, (.index i, _) :: rest, j :: js =>
+      Sep c i j ∨ (SameSlot c i j ∧ ∃ x, indexV c j = .ok x ∧ Avoids x rest js)
+  | c, (.range none none, _) :: rest, j :: js =>
+      ChildKey c j ∧ ∃ x, indexV c j = .ok x ∧ Avoids x rest js
+  | _, (.range _ _, _) :: _, _ :: _ => False
+
+/-- the update function yields exactly one value (or fails) wherever it is applied.  Needed for
+the frame property: `.[0] |= empty` shifts the rest of an array, `.[0][] |= (., .)` creates
+positions beside the updated ones (see design/notes/C02.md for the failing instances). -/
+def Single (u : Val → Out Val) : Prop :=
+  ∀ x, (∃ y, (u x).vals = [y]) ∨ ((u x).vals = [] ∧ (u x).stop ≠ none)
+
 /-! ### the manual's update table (docs/advanced.dj), rows that are not plain recursion -/
 
 /-- `(f1 as $x | g) |= u | … | (fn as $x | g) |= u`: a pipe chain over the bindings `f1 … fn`
